@@ -305,7 +305,7 @@ static Boolean DecodeAdr(
         break;
     }
 
-    if (Type != IntOp) {
+    if (Type >= SingleOp) {
         FVal = EvalStrFloatExpressionWithResult(pArg, Float64, &EvalResult);
         if (EvalResult.OK) {
             if (mFirstPassUnknown(EvalResult.Flags)) {
